@@ -110,6 +110,8 @@ class Phase:
                     else:
                         conds[int(key)] = self._query_cond(text)
                 q = Queries(conds)
+                # object addresses are part of the repeatable execution (pristine fork server, no ASLR)
+                S.trace("addr", [id(c) & 0xFFFFFFF for c in conds.values()][:4])
                 kw = {}
                 if not self.zero:
                     kw = dict(
